@@ -736,6 +736,21 @@ def dyn_program(rng, max_bits=9):
             {"n": "own", "k": "int", "w": 2, "s": False, "r": True},
             {"n": "items", "k": "list", "ek": "obj", "c": "P", "r": True, "sz": 2}], "blocks": []}
         prog["_has_q"] = True
+        if r.random() < 0.6:
+            # a reference that outlives a call: the holder refers to the dynamic block of the element selected by a
+            # non-random index field (class-level statement, or a dynamic block of its own that calls reference);
+            # the history moves the index between the calls
+            dn = [b["n"] for b in prog["classes"]["P"]["blocks"] if b.get("dyn")]
+            prog["classes"]["Q"]["fields"].insert(1, {"n": "sel", "k": "int", "w": 1, "s": False, "r": False, "i": r.randint(0, 1)})
+            ref = ["dyni", ["items"], ["f", ["sel"]], r.choice(dn)]
+            form = r.choice(["class", "dyn", "dyn_not", "both"])
+            if form in ("class", "both"):
+                prog["classes"]["Q"]["blocks"].append({"n": "cq", "st": [["e", ref]]})
+            if form in ("dyn", "both"):
+                prog["classes"]["Q"]["blocks"].append({"n": "dq", "dyn": True, "st": [["e", ["dyni", ["items"], ["f", ["sel"]], r.choice(dn)]]]})
+            if form == "dyn_not":
+                prog["classes"]["Q"]["blocks"].append({"n": "dq", "dyn": True, "st": [["e", ["n", ["dyni", ["items"], ["f", ["sel"]], r.choice(dn)]]]]})
+            prog["_q_sel"] = True
     plant(prog, g)
     return prog, g
 
@@ -758,6 +773,18 @@ def dyn_history(g, prog, nops=12):
         else:
             base = ["items", r.randrange(2)]
             sc = scope_of(prog, "Q")
+            qd = [b["n"] for b in prog["classes"]["Q"]["blocks"] if b.get("dyn")]
+            if qd and r.random() < 0.6:
+                # the holder's own dynamic block (it refers to an element's block through the index field)
+                c = r.random()
+                t = ["dyn", [], qd[0]]
+                if c < 0.5:
+                    st.append(["e", t])
+                elif c < 0.75:
+                    e = g.boolean(sc, 1, 0)
+                    st.append(["e", ["b", "&", t, e]] if e else ["e", t])
+                else:
+                    st.append(["e", ["b", "|", t, ["dyn", list(base), r.choice(dyns)]]])
         # one to three statements with dynamic references; the same block may be referenced repeatedly
         for _k in range(r.choice([1, 1, 2, 2, 3])):
             c = r.random()
@@ -779,6 +806,10 @@ def dyn_history(g, prog, nops=12):
         r.shuffle(st)
         return st
     population = r.random() < 0.5    # half of the cases keep a single instance alive
+    if prog.get("_q_sel"):
+        # the holder with the index field is there from the start and is used most of the time
+        insts["o1"] = "Q"
+        hist.append({"op": "new", "name": "o1", "cls": "Q"})
     for i in range(nops):
         c = r.random()
         if population and c < 0.2 and len(insts) < 5:
@@ -788,6 +819,10 @@ def dyn_history(g, prog, nops=12):
             hist.append({"op": "new", "name": name, "cls": cn})
         else:
             inst = r.choice(sorted(insts))
+            if prog.get("_q_sel") and r.random() < 0.6:
+                inst = "o1"
+            if insts[inst] == "Q" and prog.get("_q_sel") and r.random() < 0.6:
+                hist.append({"op": "set", "o": inst, "path": ["sel"], "v": r.randint(0, 1)})
             if r.random() < 0.4:
                 hist.append({"op": "randomize", "o": inst})
             else:
@@ -890,7 +925,8 @@ def soft_history(g, prog, ncalls=5):
 # lists (C04)
 # ---------------------------------------------------------------------------
 
-def list_program(rng, max_points=1 << 12):
+def list_program(rng, max_points=1 << 12, dyn_fe=False):
+    """dyn_fe: sometimes adds a dynamic block whose body is a foreach over the list (referenced inline by the history)"""
     r = rng
     g = G(rng, 12)
     prog = {"enums": {}, "classes": {}, "top": "T"}
@@ -1008,10 +1044,15 @@ def list_program(rng, max_points=1 << 12):
         prog["classes"]["T"]["blocks"].append({"n": "c0", "st": st[:h]})
         prog["classes"]["T"]["blocks"].append({"n": "c1", "st": st[h:]})
     prog["_kind"] = kind
+    if dyn_fe and kind != "nonrand" and r.random() < 0.3:
+        # a dynamic block with a foreach: referenced by some calls only, and the list changes between them
+        prog["classes"]["T"]["blocks"].append({"n": "dl", "dyn": True, "st": [
+            ["fe", ["l"], "it", [["e", ["b", r.choice(["<", "<=", "!=", ">"]), ["it"], lit()]]]]]})
+        prog["_dyn_fe"] = True
     return prog, g
 
 
-def list_history(g, prog, ncalls=4):
+def list_history(g, prog, ncalls=4, obj_edits=False):
     r = g.rng
     T = prog["classes"]["T"]
     L = [fd for fd in T["fields"] if fd["n"] == "l"][0]
@@ -1040,8 +1081,21 @@ def list_history(g, prog, ncalls=4):
             for fd in T["fields"]:
                 if fd["k"] == "int" and not fd["r"]:
                     hist.append({"op": "set", "o": "o0", "path": [fd["n"]], "v": g.rand_val(fd["w"], fd["s"])})
+        if obj_edits and ci > 0 and r.random() < 0.2 and any(fd["n"] == "ol" for fd in T["fields"]):
+            # the user replaces / extends the objects of the list of objects between the calls
+            if r.random() < 0.6:
+                hist.append({"op": "l_clear", "o": "o0", "path": ["ol"]})
+                for _k in range(r.randint(1, 2)):
+                    hist.append({"op": "l_append", "o": "o0", "path": ["ol"]})
+            else:
+                hist.append({"op": "l_append", "o": "o0", "path": ["ol"]})
         c2 = r.random()
-        if c2 < 0.6:
+        if prog.get("_dyn_fe") and c2 < 0.45:
+            inl = [["e", ["dyn", [], "dl"]]]
+            if r.random() < 0.3:
+                inl.append(["e", ["b", r.choice(["<", ">", "!="]), ["f", ["a"]], ["c", r.randint(0, 3)]]])
+            hist.append({"op": "with", "o": "o0", "inline": inl})
+        elif c2 < 0.6:
             hist.append({"op": "randomize", "o": "o0"})
         elif c2 < 0.8 or not cur_len or not L["r"]:
             hist.append({"op": "with", "o": "o0", "inline": [["e", ["b", r.choice(["<", ">", "!="]), ["f", ["a"]], ["c", r.randint(0, 3)]]]]})
